@@ -30,7 +30,11 @@ where
         storage,
         state,
         change_timestamp,
+        #[cfg(datacake_verif)]
+        vid: crate::verif::next_actor_id(),
     };
+    #[cfg(datacake_verif)]
+    crate::verif::ks_spawn(ks.vid, &ks.name, &ks.state);
 
     ks.spawn_actor_with_name(name).await
 }
@@ -44,6 +48,8 @@ where
     storage: Arc<S>,
     state: OrSWotSet<NUM_SOURCES>,
     change_timestamp: Arc<AtomicCell<HLCTimestamp>>,
+    #[cfg(datacake_verif)]
+    vid: u64,
 }
 
 #[puppet_actor]
@@ -63,6 +69,16 @@ where
     async fn on_set(&mut self, msg: Set<S>) -> Result<(), S::Error> {
         // We have something newer.
         if !self.state.will_apply(msg.doc.id(), msg.doc.last_updated()) {
+            #[cfg(datacake_verif)]
+            crate::verif::ks_op(
+                self.vid,
+                "set",
+                msg.source,
+                &[(msg.doc.id(), msg.doc.last_updated())],
+                &[],
+                "skip",
+                &self.state,
+            );
             return Ok(());
         }
 
@@ -75,6 +91,16 @@ where
 
         // The change has gone through, let's apply our memory state.
         self.state.insert_with_source(msg.source, doc_id, ts);
+        #[cfg(datacake_verif)]
+        crate::verif::ks_op(
+            self.vid,
+            "set",
+            msg.source,
+            &[(doc_id, ts)],
+            &[(doc_id, ts)],
+            "ok",
+            &self.state,
+        );
         self.inc_change_timestamp().await;
         Ok(())
     }
@@ -93,6 +119,12 @@ where
         // replication batch). Storage keeps whatever is written last, so the documents
         // must be written in the same order the set is updated in.
         let mut msg = msg;
+        #[cfg(datacake_verif)]
+        let v_req: Vec<(u64, HLCTimestamp)> = msg
+            .docs
+            .iter()
+            .map(|doc| (doc.id(), doc.last_updated()))
+            .collect();
         msg.docs.sort_by_key(|doc| doc.last_updated());
 
         // Only select docs to be inserted if they're able to be applied.
@@ -120,14 +152,40 @@ where
                 .into_iter()
                 .filter(|entry| successful_ids.contains(&entry.0));
 
+            #[cfg(datacake_verif)]
+            let mut v_applied = Vec::new();
             for (doc_id, ts) in successful_entries {
                 self.state.insert_with_source(msg.source, doc_id, ts);
+                #[cfg(datacake_verif)]
+                v_applied.push((doc_id, ts));
             }
+            #[cfg(datacake_verif)]
+            crate::verif::ks_op(
+                self.vid,
+                "mset",
+                msg.source,
+                &v_req,
+                &v_applied,
+                "err",
+                &self.state,
+            );
             Err(error)
         } else {
+            #[cfg(datacake_verif)]
+            let v_applied = valid_entries.clone();
             for (doc_id, ts) in valid_entries {
                 self.state.insert_with_source(msg.source, doc_id, ts);
             }
+            #[cfg(datacake_verif)]
+            crate::verif::ks_op(
+                self.vid,
+                "mset",
+                msg.source,
+                &v_req,
+                &v_applied,
+                "ok",
+                &self.state,
+            );
             Ok(())
         }
     }
@@ -139,6 +197,16 @@ where
     async fn on_del(&mut self, msg: Del<S>) -> Result<(), S::Error> {
         // We have something newer.
         if !self.state.will_apply(msg.doc.id, msg.doc.last_updated) {
+            #[cfg(datacake_verif)]
+            crate::verif::ks_op(
+                self.vid,
+                "del",
+                msg.source,
+                &[(msg.doc.id, msg.doc.last_updated)],
+                &[],
+                "skip",
+                &self.state,
+            );
             return Ok(());
         }
 
@@ -149,6 +217,16 @@ where
         // The change has gone through, let's apply our memory state.
         self.state
             .delete_with_source(msg.source, msg.doc.id, msg.doc.last_updated);
+        #[cfg(datacake_verif)]
+        crate::verif::ks_op(
+            self.vid,
+            "del",
+            msg.source,
+            &[(msg.doc.id, msg.doc.last_updated)],
+            &[(msg.doc.id, msg.doc.last_updated)],
+            "ok",
+            &self.state,
+        );
         self.inc_change_timestamp().await;
         Ok(())
     }
@@ -165,6 +243,9 @@ where
 
         // See `on_multi_set`, tombstones must be written in timestamp order as well.
         let mut msg = msg;
+        #[cfg(datacake_verif)]
+        let v_req: Vec<(u64, HLCTimestamp)> =
+            msg.docs.iter().map(|doc| (doc.id, doc.last_updated)).collect();
         msg.docs.sort_by_key(|doc| doc.last_updated);
 
         // Only select docs to be inserted if they're able to be applied.
@@ -189,14 +270,40 @@ where
                 .into_iter()
                 .filter(|entry| successful_ids.contains(&entry.0));
 
+            #[cfg(datacake_verif)]
+            let mut v_applied = Vec::new();
             for (doc_id, ts) in successful_entries {
                 self.state.delete_with_source(msg.source, doc_id, ts);
+                #[cfg(datacake_verif)]
+                v_applied.push((doc_id, ts));
             }
+            #[cfg(datacake_verif)]
+            crate::verif::ks_op(
+                self.vid,
+                "mdel",
+                msg.source,
+                &v_req,
+                &v_applied,
+                "err",
+                &self.state,
+            );
             Err(error)
         } else {
+            #[cfg(datacake_verif)]
+            let v_applied = valid_entries.clone();
             for (doc_id, ts) in valid_entries {
                 self.state.delete_with_source(msg.source, doc_id, ts);
             }
+            #[cfg(datacake_verif)]
+            crate::verif::ks_op(
+                self.vid,
+                "mdel",
+                msg.source,
+                &v_req,
+                &v_applied,
+                "ok",
+                &self.state,
+            );
             Ok(())
         }
     }
@@ -207,6 +314,8 @@ where
         _msg: PurgeDeletes<S>,
     ) -> Result<(), S::Error> {
         let changes = self.state.purge_old_deletes();
+        #[cfg(datacake_verif)]
+        let v_purged = changes.clone();
 
         let res = self
             .storage
@@ -220,11 +329,25 @@ where
                 .into_iter()
                 .filter(|(key, _)| !error.successful_doc_ids.contains(key))
                 .collect();
+            #[cfg(datacake_verif)]
+            let v_readded: Vec<(u64, HLCTimestamp)> = Clone::clone(&tombstones);
 
             self.state.add_raw_tombstones(tombstones);
+            #[cfg(datacake_verif)]
+            crate::verif::ks_op(
+                self.vid,
+                "purge",
+                0,
+                &v_purged,
+                &v_readded,
+                "err",
+                &self.state,
+            );
 
             return Err(error.inner);
         }
+        #[cfg(datacake_verif)]
+        crate::verif::ks_op(self.vid, "purge", 0, &v_purged, &[], "ok", &self.state);
 
         Ok(())
     }
@@ -293,6 +416,8 @@ mod tests {
             storage: Arc::new(storage),
             state: OrSWotSet::default(),
             change_timestamp: Arc::new(AtomicCell::new(ts)),
+            #[cfg(datacake_verif)]
+            vid: crate::verif::next_actor_id(),
         }
     }
 
